@@ -135,7 +135,10 @@ TNext ==
                          /\ UNCHANGED <<seqOf, nextSeq, inbox, dead, args, sentAt>>
                     ELSE Bad({IF S.st[c] \in {"ok", "rerr"} THEN "LostReply" ELSE "SpuriousTransportError"})
                ELSE \* a genuine deadline expiry
-                    IF S.st[c] \in {"ok", "rerr"} /\ seqOf[c] \in DOMAIN sentAt /\ E.ts - sentAt[seqOf[c]] > 300
+                    \* (a peer that closes its socket with unread frames in it resets the connection,
+                    \* and a reset may discard a reply the client has not read yet: once the stream
+                    \* is dead, a reply that was sent is not a reply that arrived)
+                    IF S.st[c] \in {"ok", "rerr"} /\ ~dead /\ seqOf[c] \in DOMAIN sentAt /\ E.ts - sentAt[seqOf[c]] > 300
                     THEN Bad({"TimeoutDespiteReply"})
                     \* (after a transport error the client waits 2 s before it fails the calls in
                     \* flight; a caller whose deadline is shorter returns the timeout first)
